@@ -47,6 +47,8 @@ def run(ctx):
     rule_accept(ctx, F)
     rule_panic(ctx, F)
     rule_once(ctx, F)
+    rule_recv(ctx, F)
+    rule_hint(ctx, F)
     import c02
     c02.rule_shim(ctx, F)   # the length prefix written on a stream is kept current by StreamTarget (shared with C02)
 
@@ -389,3 +391,42 @@ def rule_once(ctx, F):
                 ok = True
         ctx.ob(R, p, "a service error becomes an error response (not silence)", ok,
                "process_response_stream_item does not turn Err(ServiceError) into Some(mk_error_response(..))")
+
+
+def rule_recv(ctx, F):
+    """The stream connection's read is not cancel-safe: its future is created once, pinned, and polled across events.  A new
+    one may only be created after the old one has delivered its message -- every cycle through the `recv()` call passes
+    through the handling of a received request."""
+    R = "C16.recv"
+    ctx.floor(R, 1)
+    bs = [b for p, b in F.bodies.items() if re.match(r"^net::server::connection::Connection::<.*>::run_until_error::\{closure#0\}$", p)]
+    if not ctx.anchor(R, "Connection::run_until_error", len(bs) == 1):
+        return
+    b = bs[0]
+    from rulelib import on_every_cycle
+    rc = [bb for bb, tt in b.calls() if re.search(r"DnsMessageReceiver::<.*>::recv$", tt["fn"] or "")]
+    pr = [bb for bb, tt in b.calls() if re.search(r"::process_read_request$", tt["fn"] or "")]
+    if not ctx.anchor(R, "recv() future creation and process_read_request in run_until_error", len(rc) == 1 and len(pr) == 1, b.where()):
+        return
+    ctx.ob(R, b, "a new read future is created only after the previous one delivered a request", on_every_cycle(b, rc[0], pr[0]),
+           "run_until_error can go back to `dns_msg_receiver.recv()` without the pending read future having completed (after a "
+           "server command, a queued response or the idle timer): the pinned future is dropped in the middle of a request that "
+           "arrived in two segments, the stream loses its framing and the connection is torn down", b.where(rc[0]))
+
+
+def rule_hint(ctx, F):
+    """The response size the EDNS middleware negotiates is written into the request's UDP context and read by the truncating
+    middleware from *its* copy of the request: the copies have to share the hint (Arc), a clone must not get a fresh one."""
+    R = "C16.hint"
+    ctx.floor(R, 1)
+    bs = [b for p, b in F.bodies.items() if re.match(r"^<net::server::message::UdpTransportContext as core::clone::Clone>::clone$", p)]
+    if not ctx.anchor(R, "UdpTransportContext::clone", len(bs) == 1):
+        return
+    b = bs[0]
+    shared = [bb for bb, tt in b.calls() if re.search(r"Arc<.*> as core::clone::Clone>::clone$|Arc::<.*>::clone$|Clone::clone$", (tt.get("res") or tt["fn"] or ""))
+              and "max_response_size_hint" in show(deep_strip(b.term_of_operand(tt["args"][0])))]
+    fresh = [bb for bb, tt in b.calls() if re.search(r"Arc::<.*>::new$|UdpTransportContext::new$|Mutex::<.*>::new$", tt["fn"] or "")]
+    ctx.ob(R, b, "a cloned request shares the size hint of the original", bool(shared) and not fresh,
+           "UdpTransportContext::clone gives the copy a hint of its own: the size the EDNS middleware negotiates for the copy it "
+           "was handed never reaches the middleware that truncates, which still sees the server's limit -- a client that "
+           "advertised 700 octets gets 850", b.where())
